@@ -102,20 +102,26 @@ PROPS = {
         "trusted": ["top_level_extra is decided by the DNF model (C05)"], "assumptions": [],
     },
     "C13": {
-        "lean_targets": ["Pep508.Theorems.C13"],
-        "theorems": ["Pep508.C13.evaluate_extras_sound", "Pep508.C13.evaluate_extras_false", "Pep508.evalExtras_sound"],
+        "lean_targets": ["Pep508.Theorems.C13", "Pep508.Theorems.C13b"],
+        "theorems": ["Pep508.C13.evaluate_extras_sound", "Pep508.C13.evaluate_extras_false", "Pep508.evalExtras_sound",
+                     "Pep508.C13.evaluate_extras_exact", "Pep508.C13.evaluate_extras_iff_dense", "Pep508.C13.evaluate_extras_false_iff",
+                     "Pep508.C13.evaluate_extras_iff_partial", "Pep508.C13.exact_fails_over_int", "Pep508.C13.exact_fails_unordered"],
         "suites": [{"name": "algebra", "args": ["C13"]}],
         "rule": "a pool of markers is built through the real API along random construction paths (typed expressions, and/or/negate, simplify_extras, "
                 "simplify/complexify_python_versions, plus shapes generated on purpose); every pool marker is evaluated with four extras sets through evaluate_extras, evaluate_optional_environment(None) and "
                 "evaluate_extras_and_python_version; bits are compared with the model (Tree.evalExtras on the literal dump); soundness is checked existentially over "
                 "region environments; non-trivial = distinct marker dumps",
-        "trusted": ["exactness on independent variables is checked by the oracle only (witness search), not yet a theorem"], "assumptions": [],
+        "trusted": ["'variables are independent' is the model's environment (one free value per diagram variable): exactness is a theorem there; dependencies between diagram variables of the real code (`'x' in os_name` vs `os_name == 'y'`) are outside it, as the property states"], "assumptions": ["every valid interval of the value order is inhabited (dense order), or every edge interval of the diagram is inhabited"],
     },
     "C12": {
-        "lean_targets": ["Pep508.Theorems.C12"],
+        "lean_targets": ["Pep508.Theorems.C12", "Pep508.Theorems.C12b"],
         "theorems": ["Pep508.C12.complexify_eval", "Pep508.C12.simplify_eval_inside", "Pep508.C12.complexify_wf", "Pep508.C12.simplify_wf",
                      "Pep508.C12.complexify_eq_and", "Pep508.C12.complexify_simplify", "Pep508.C12.complexify_congr",
-                     "Pep508.C12.eval_pyRangeMarker", "Pep508.C12.wf_pyRangeMarker", "Pep508.simplifyEdges_ne_nil", "Pep508.filter_part"],
+                     "Pep508.C12.eval_pyRangeMarker", "Pep508.C12.wf_pyRangeMarker", "Pep508.simplifyEdges_ne_nil", "Pep508.filter_part",
+                     "Pep508.C12.simplify_congr", "Pep508.C12.simplify_eq_iff", "Pep508.C12.simplify_complexify", "Pep508.C12.simplify_idem_all",
+                     "Pep508.C12.simplify_eval_below", "Pep508.C12.simplify_eval_above", "Pep508.C12.nonempty_iff_valid",
+                     "Pep508.C12.simplify_not_mentions", "Pep508.C12.simplify_empty_pv_node", "Pep508.C12.simplify_congr_empty_false",
+                     "Pep508.C12.simplify_complexify_empty_false"],
         "suites": [{"name": "algebra", "args": ["C12"]}],
         "rule": "a pool of markers is built through the real API along random construction paths (typed expressions, and/or/negate, simplify_extras, "
                 "simplify/complexify_python_versions, plus shapes generated on purpose); for random (marker, lower, upper) with bounds from {unbounded, included, excluded} x a literal pool with trailing zeros and pre/post/dev/epoch decorations "
@@ -255,21 +261,22 @@ PROPS = {
                 "watchdog are reported; non-trivial = (round, thread count) pairs",
         "trusted": ["memory ordering of the lock-free arena reads and deadlock-freedom of std::sync::Mutex are outside any executable model"], "assumptions": [],
     },
-}
-
-# suites are ready, theorems still being proved: not claimed until then
-PENDING = {
     "C19": {
-        "lean_targets": ["Pep508.Model.ReqParse"],
-        "theorems": ["Pep508.C06.marker_tree_never_panics"],
+        "lean_targets": ["Pep508.Theorems.C19"],
+        "theorems": ["Pep508.C19.archive_rule", "Pep508.C19.scheme_rule", "Pep508.C19.path_unsupported", "Pep508.C19.path_never_accepted",
+                     "Pep508.C19.scheme_url_unsupported", "Pep508.C19.scheme_url_never_accepted", "Pep508.C19.relpath_unsupported",
+                     "Pep508.C19.relpath_never_accepted", "Pep508.C19.archive_name_unsupported", "Pep508.C19.archive_name_extras_unsupported",
+                     "Pep508.C19.archive_name_never_accepted", "Pep508.C19.scheme_not_a_name", "Pep508.C19.span_conventions"],
         "suites": [{"name": "req", "args": ["C19"]}, {"name": "req", "args": ["C19"], "features": "ext"}],
-        "rule": "33 shapes (scheme URLs, absolute/relative/Windows/UNC paths, `.`/`..`, every pip archive extension incl. two-part ones, near misses such as `foo.tar.gz.sig`, `x.tar.gz2`) x six "
+        "rule": "generated shapes (13 scheme forms x 7 rests, 7 first path segments incl. ones that are not valid names x 2 separators x 3 tails, every shape again behind 3 kinds of leading whitespace) and 33 hand-picked shapes (scheme URLs, absolute/relative/Windows/UNC paths, `.`/`..`, every pip archive extension incl. two-part ones, near misses such as `foo.tar.gz.sig`, `x.tar.gz2`) x six "
                 "suffixes (none, extras, marker, both, spaced extras, trailing blanks): never accepted as a named requirement and rejected with the unsupported-requirement kind; every outcome "
                 "is compared with the Lean model (looksLikeUnnamed, splitScheme, splitExtras, looksLikeArchive with the std::path extension rules); split_scheme / split_extras are compared "
                 "directly; non-trivial = distinct texts",
         "trusted": ["the unnamed-requirement parser (feature non-pep508-extensions) is exercised by the oracle only when the harness is built with that feature (thorough tier)"], "assumptions": [],
     },
 }
+
+PENDING = {}
 
 NOT_APPLICABLE = {}
 
@@ -322,9 +329,9 @@ MANIFEST_TEXT = {
         "note": _NOTE + "expandEnvVars has no independent Lean specification yet (correspondence + Rust oracle); url::Url::parse trusted.",
     },
     "C19": {
-        "technique": "Lean model of looks_like_unnamed_requirement / looks_like_archive / split_scheme / split_extras inside the requirement-parser model, compared on all shapes x suffixes",
-        "text": "Every shape x suffix is rejected with the unsupported-requirement kind by both implementation and model; helpers compared directly.",
-        "note": _NOTE + "partial: classification lemmas not yet proved in Lean; the unnamed parser is oracle-only.",
+        "technique": "Lean 4 theorems: every path, scheme URL, relative path and archive file name (with extras / marker / leading whitespace, any environment) is rejected by the model requirement parser with the unsupported-requirement kind and never accepted; declarative specs of looks_like_archive and split_scheme; differential model on generated shapes; unnamed parser by oracle",
+        "text": "path_unsupported, scheme_url_unsupported, relpath_unsupported, archive_name_unsupported(+extras) and *_never_accepted over all inputs of each shape; archive_rule / scheme_rule characterise the helper functions; every generated shape x suffix is compared between implementation and model and judged by the oracle.",
+        "note": _NOTE + "partial: the default-feature half (never a name; dedicated error kind; for paths, scheme URLs, relative paths and archive names, with extras / marker suffixes, leading whitespace, any environment) is proved; the unnamed parser of the non-pep508-extensions feature (acceptance, recovery of URL / extras / marker, round trip) is not modelled: oracle only, in the thorough tier built with that feature.",
     },
     "C10": {
         "technique": "Lean 4 theorem: the diagram of `python_version OP V` evaluates as PEP 440 release comparison of X.Y (all operators, all literals outside the carve-out), "
